@@ -7,6 +7,7 @@ import PyodaProofs.C01PersianSimple
 import PyodaProofs.C01PersianArithmetic
 import PyodaProofs.C01IsoFast
 import PyodaProofs.C01WfCheck
+import PyodaProofs.GenAgreeC01
 
 #print axioms Pyoda.C01.getYear_spec
 #print axioms Pyoda.C01.days_ymd_days
@@ -40,3 +41,38 @@ import PyodaProofs.C01WfCheck
 #print axioms Pyoda.C01.greg_daysOfYmdFast_eq
 #print axioms Pyoda.C01.greg_ymdOfDaysFast_eq
 #print axioms Pyoda.C01.greg_validate_eq
+#print axioms Pyoda.GenAgree.C01.gen_Greg_isGregorianLeapYear_eq
+#print axioms Pyoda.GenAgree.C01.gen_Greg_isLeap_eq
+#print axioms Pyoda.GenAgree.C01.gen_Greg_len_eq
+#print axioms Pyoda.GenAgree.C01.gen_Greg_start_eq
+#print axioms Pyoda.GenAgree.C01.gen_Greg_validate_eq
+#print axioms Pyoda.GenAgree.C01.gen_Greg_validateYmd_eq
+#print axioms Pyoda.GenAgree.C01.gen_GJ_len_eq
+#print axioms Pyoda.GenAgree.C01.gen_GJ_dim_eq
+#print axioms Pyoda.GenAgree.C01.gen_GJ_toMonth_eq
+#print axioms Pyoda.GenAgree.C01.gen_GJ_split_eq
+#print axioms Pyoda.GenAgree.C01.gen_Greg_dim_eq
+#print axioms Pyoda.GenAgree.C01.gen_Greg_toMonth_eq
+#print axioms Pyoda.GenAgree.C01.gen_Greg_split_eq
+#print axioms Pyoda.GenAgree.C01.gen_Jul_isLeap_eq
+#print axioms Pyoda.GenAgree.C01.gen_Jul_start_eq
+#print axioms Pyoda.GenAgree.C01.gen_Jul_len_eq
+#print axioms Pyoda.GenAgree.C01.gen_Jul_dim_eq
+#print axioms Pyoda.GenAgree.C01.gen_Jul_toMonth_eq
+#print axioms Pyoda.GenAgree.C01.gen_Jul_split_eq
+#print axioms Pyoda.GenAgree.C01.gen_Copt_isLeap_eq
+#print axioms Pyoda.GenAgree.C01.gen_Copt_len_eq
+#print axioms Pyoda.GenAgree.C01.gen_Copt_dim_eq
+#print axioms Pyoda.GenAgree.C01.gen_Copt_toMonth_eq
+#print axioms Pyoda.GenAgree.C01.gen_Copt_split_eq
+#print axioms Pyoda.GenAgree.C01.gen_Copt_start_eq
+#print axioms Pyoda.GenAgree.C01.gen_Isl_len_eq
+#print axioms Pyoda.GenAgree.C01.gen_Isl_len_model
+#print axioms Pyoda.GenAgree.C01.gen_Isl_dim_eq
+#print axioms Pyoda.GenAgree.C01.gen_Isl_toMonth_eq
+#print axioms Pyoda.GenAgree.C01.gen_Isl_split_eq
+#print axioms Pyoda.GenAgree.C01.gen_Pers_len_eq
+#print axioms Pyoda.GenAgree.C01.gen_Pers_dim_eq
+#print axioms Pyoda.GenAgree.C01.gen_Pers_toMonth_eq
+#print axioms Pyoda.GenAgree.C01.gen_Pers_split_eq
+#print axioms Pyoda.GenAgree.C01.gen_Pers_leapArithmetic_eq
